@@ -405,7 +405,7 @@ PROPS = {
     },
     "C08": {
         "module": 'MF.Props.C08Types',
-        "module_extra": ['MF.Props.C08TypeGo'],
+        "module_extra": ['MF.Props.C08TypeGo', 'MF.Props.C08Query'],  # C08Query = Task X: the SELECT core (ParseQuery / ParseStatement)
         "theorems": ['MF.Props.C08.simpleTypes_translated', 'MF.Props.C08.parseType_dispatch_translated', 'MF.Props.C08.parseType_model_dispatch',
             'MF.Props.C08.type_sound',
             'MF.Props.C08.type_sound_top',
@@ -415,9 +415,19 @@ PROPS = {
             'MF.Props.C08.type_unique',
             'MF.Props.C08.fuel_irrelevant',
             'MF.Props.C08.ex_parse',
-            'MF.Props.C08.ex_typeD'],
-        "channels": ['TREE', 'TYPE', 'EXPR'],
+            'MF.Props.C08.ex_typeD',
+            # Task X
+            'MF.Props.C08.query_sound',
+            'MF.Props.C08.query_sound_top',
+            'MF.Props.C08.query_entry_points_agree',
+            'MF.Props.C08.query_entry_points_agree_ok',
+            'MF.Props.C08.accepted_starts_select',
+            'MF.Props.C08.expr_slot_complete',
+            'MF.Props.C08.where_complete',
+            'MF.Props.C08.having_complete'],
+        "channels": ['TREE', 'TYPE', 'EXPR', 'QUERY'],
         "channel_accepts": {"TYPE": "MF.Props.C08.type_sound_top: an accepted token list is a derivation of the documented type grammar G_T",
+                            "QUERY": "MF.Props.C08.query_sound_top: an accepted token list is a derivation of the documented grammar G_Q of the SELECT core",
                             "EXPR": "MF.Props.C07.top_sound: an accepted token list is the yield of a tree grouped by the GoogleSQL operator table"},
         "pred": True,
         "level": 'proof',
@@ -427,8 +437,17 @@ PROPS = {
             'channel (every field and position, Pos()/End() of every node, SQL(), re-lexing flag rt, slice-and-reparse flag ex)',
             "specification MF/Spec/TypeGrammar.lean (G_T over token kinds written from the documentation, expansion of '>>' / '<>', yield of a tree, Match, wf), MF/Spec/TypeNodes.lean, "
             'MF/Spec/TypeShift.lean, MF/Spec/TypeReads.lean; lexer model MF/Model/Lexer.lean (LEX channel)',
+            'hand-written model MF/Model/Query.lean of parser.go ParseQuery/ParseStatement/parseQueryStatement/parseQueryExpr/parseSimpleQueryExpr/parseSelect/parseSelectResults/'
+            'parseSelectItem/tryParseAsAlias/tryParseFrom/parseTableExpr (table name or path)/tryParseWhere/tryParseGroupBy/tryParseHaving/parseQueryExprSuffix/tryParseOrderBy/'
+            'tryParseLimit/tryParseOffset (one Lean function per Go function and loop, expressions through the positioned expression model) and of the matching nodes of ast/ast.go, ast/pos.go, '
+            'ast/sql.go; tied to memefish.ParseQuery and memefish.ParseStatement by the QUERY channel (every field and position, Pos()/End() of every node, SQL(); token-level OUTSIDE rule shared with '
+            'the harness); specification MF/Spec/QueryGrammar.lean (G_Q written from the doc comments of ast/ast.go, token descriptors, yield of a tree)',
             'no Lean model of the other productions of parser.go: the predicate runs the real entry points'],
-        "assumptions": ['proved for the ParseType entry point (model, every token list): the model accepts exactly the sentences of the documented type grammar G_T and returns the derivation tree '
+        "assumptions": ['proved for the SELECT core (model of ParseQuery / ParseStatement, fragment M3: SELECT [ALL|DISTINCT] items [,] [FROM path [[AS] alias]] [WHERE] [GROUP BY] [HAVING] [ORDER BY … [ASC|DESC]] '
+            '[LIMIT n [OFFSET m]], expressions in M1): an accepted token list is the yield of the returned tree and that yield is derivable in the documented grammar G_Q (query_sound, query_sound_top); '
+            'on a token list starting with SELECT, ParseStatement answers exactly what ParseQuery answers, for every fuel and every kind of answer (query_entry_points_agree); every other query form is outside the model '
+            '(explored only)',
+            'proved for the ParseType entry point (model, every token list): the model accepts exactly the sentences of the documented type grammar G_T and returns the derivation tree '
             '(type_sound, type_complete with a concrete fuel and NO side condition, type_accepts_iff, type_unique); the former side condition HeadsOK is gone with the repair of '
             'lookaheadSimpleType (date.T, string.x are named types); every other entry point is explored only',
             'every other entry point and node kind: exploration of the real entry points over corpus, probes, the reference grammar G, grafts, edits, mutations and soups (partial)'],
